@@ -31,10 +31,10 @@ def run(ctx):
         ctx.configs[cfg] = info
         ctx.cfg = cfg
         summaries[cfg] = cache_rules.paged_reader_rules(ctx, prog, crc_kind=("table" if cfg == "lib" else "crate"))
-        cache_rules.validate_crc_rule(ctx, prog)
-        io_rules.no_error_turned_into_success(ctx, prog, "R8")
+        ctx.call(cache_rules.validate_crc_rule, prog)
+        ctx.call(io_rules.no_error_turned_into_success, prog, "R8")
         if cfg == "lib":
-            crc_rules.crc32c_shape(ctx, prog)
+            ctx.call(crc_rules.crc32c_shape, prog)
     ctx.cfg = None
     # R6: sibling comparison across configurations
     a, b = summaries["lib"], summaries["lib_crc32c"]
@@ -43,4 +43,4 @@ def run(ctx):
         ok = sa is not None and sb is not None and sa["slice"] == sb["slice"] and sa["callee_kind"] == "table" and sb["callee_kind"] == "crate"
         ctx.ob("R6", "crc-site/" + site, ok, "default: %s | crc32c: %s" % (sa, sb), where=site)
     ctx.floor("R6", "crc call sites present in both configurations", len(set(a) & set(b)), 1)
-    cache_rules.controls(ctx)
+    ctx.call(cache_rules.controls)
